@@ -54,7 +54,10 @@ def parse_output(text, status=0):
     for (name, pid) in sorted(per, key=lambda k: k[1]):
         actors.setdefault(name, []).append(per[(name, pid)])
     st = status if end is not None or status else 99
-    return {"status": st, "actors": actors, "sig": sig, "end": end, "raw": text, "crash": crash_digest(text) if st else ""}
+    crash = ""
+    if st:
+        crash = crash_digest(text) or {139: "SIGSEGV", 134: "SIGABRT", 152: "CPU limit: the simulation spins", 136: "SIGFPE"}.get(st, "")
+    return {"status": st, "actors": actors, "sig": sig, "end": end, "raw": text, "crash": crash}
 
 
 def _split_batch(text, n):
@@ -336,3 +339,13 @@ def confirm(binary, mod, result, sig, argv=()):
             p[0]["packed_with"] = result["packed_with"]
             return "pack", p[0]
     return None
+
+
+def _job(a):
+    binary, prog, argv, wrapper, timeout = a
+    return run_one(binary, prog, argv=argv, wrapper=wrapper, raw=True, timeout=timeout)
+
+
+def run_jobs(binary, jobs, timeout=900):
+    """jobs: list of (program, argv, wrapper); each runs in its own exec'd process, all cores busy; -> [(text, status)]"""
+    return common.pmap(_job, [(binary, p, tuple(a), tuple(w), timeout) for (p, a, w) in jobs])
